@@ -55,12 +55,15 @@ struct State {
     uint32_t epoch = 0;
     uint64_t next_id = 1;
     size_t live_sut_this_run = 0;
-    uint32_t op_allocs = 0, op_frees = 0, fail_at = 0;
-    bool fault_fired = false;
     HeapViolation viol = HV_NONE;
     char viol_detail[160] = {0};
     uint64_t total_sut_allocs = 0, total_faults = 0;
 };
+
+// per-operation fault plan and counters: one set per thread (engine B interleaves operations of several caller threads; engines A and C
+// only ever use the main thread, for which this is the same as a global)
+thread_local uint32_t t_op_allocs = 0, t_op_frees = 0, t_fail_at = 0;
+thread_local bool t_fault_fired = false;
 
 State *S() {
     // constructed on first use, never destroyed (allocations happen before/after main)
@@ -90,10 +93,10 @@ void *do_alloc(size_t size, bool array, size_t align, bool nothrow) {
     {
         Lock l;
         if (sut) {
-            ++s->op_allocs;
+            ++t_op_allocs;
             ++s->total_sut_allocs;
-            if (s->fail_at && s->op_allocs == s->fail_at) {
-                s->fault_fired = true;
+            if (t_fail_at && t_op_allocs == t_fail_at) {
+                t_fault_fired = true;
                 ++s->total_faults;
                 fail = true;
             }
@@ -126,7 +129,7 @@ void do_free(void *p, bool array) {
     State *s = S();
     if (g_heap_range_hook) { BlockInfo bi; if (heap_lookup(p, &bi)) g_heap_range_hook(p, bi.size); }
     Lock l;
-    if (g_in_sut > 0) ++s->op_frees;
+    if (g_in_sut > 0) ++t_op_frees;
     auto it = s->ledger.find(p);
     if (it == s->ledger.end()) {
         // not the base of a live block: record, do not forward
@@ -161,7 +164,7 @@ void heap_begin_run(HeapPolicy policy, uint8_t fill_fresh, uint8_t fill_freed) {
     s->run_active = true; ++s->epoch; s->next_id = 1; s->live_sut_this_run = 0;
     s->freed.clear();
     s->viol = HV_NONE; s->viol_detail[0] = 0;
-    s->op_allocs = s->op_frees = 0; s->fail_at = 0; s->fault_fired = false;
+    t_op_allocs = t_op_frees = 0; t_fail_at = 0; t_fault_fired = false;
 }
 
 size_t heap_end_run() {
@@ -206,14 +209,11 @@ bool heap_redzones_intact(char *detail, size_t n) {
 
 bool heap_was_freed(const void *p) { State *s = S(); Lock l; return s->freed.count(p) != 0; }
 
-void heap_op_begin(uint32_t fail_at) {
-    State *s = S(); Lock l;
-    s->op_allocs = 0; s->op_frees = 0; s->fail_at = fail_at; s->fault_fired = false;
-}
-void heap_op_end() { State *s = S(); Lock l; s->fail_at = 0; }
-uint32_t heap_op_allocs() { State *s = S(); Lock l; return s->op_allocs; }
-uint32_t heap_op_frees() { State *s = S(); Lock l; return s->op_frees; }
-bool heap_fault_fired() { State *s = S(); Lock l; return s->fault_fired; }
+void heap_op_begin(uint32_t fail_at) { t_op_allocs = 0; t_op_frees = 0; t_fail_at = fail_at; t_fault_fired = false; }
+void heap_op_end() { t_fail_at = 0; }
+uint32_t heap_op_allocs() { return t_op_allocs; }
+uint32_t heap_op_frees() { return t_op_frees; }
+bool heap_fault_fired() { return t_fault_fired; }
 HeapViolation heap_take_violation(char *detail, size_t n) {
     State *s = S(); Lock l;
     HeapViolation v = s->viol;
